@@ -64,6 +64,7 @@ func (dp *DataProcessor) Process() {
 			return
 		}
 
+		verifYield("consumer_loaded")
 		select {
 		case data, ok := <-currentDataChan:
 			if !ok {
